@@ -5,7 +5,7 @@
 # usage: tools/determinism_load.sh [runs] [copies] [props...]
 export GOFLAGS=-mod=mod GOPROXY=off GOSUMDB=off GOTOOLCHAIN=local
 N=${1:-3000}; K=${2:-20}; shift; shift
-PROPS=${@:-C04 C10 C15 C16 C17 C18}
+PROPS=${@:-C04 C10 C12 C15 C16 C17 C18}
 cd /verif/sim && go1.26.8 test -c -tags verif -o /verif/bin/worker.test ./worker || exit 2
 tmp=$(mktemp -d /root/.cache/detl.XXXX); rc=0
 for p in $PROPS; do
